@@ -509,7 +509,7 @@ def differential(check, job, ctx, runs=100):
 def _judge(body, rc, out):
     if 'replay vector mismatch' in out:
         return False, out
-    if 'REPLAY-FAILED' in out:
+    if 'REPLAY-FAILED' in out or 'DATA RACE' in out:
         return True, out
     if 'REPLAY-ABORT' in out and 'REPLAY-FAILED' not in out:
         return False, out
@@ -555,7 +555,8 @@ def replay_scratch_pkg(check, body, ctx, replay_path):
     _test_file(pkgname, body['func'], body['args'], tf)
     env = dict(GOENV)
     env['VERIF_REPLAY'] = replay_path
-    rc, out = sh(['go', 'test', '-vet=off', '-count=1', '-run', 'TestVerifReplay', '.'], cwd=d, env=env, timeout=900)
+    race = ['-race'] if ctx.get('race') else []
+    rc, out = sh(['go', 'test'] + race + ['-vet=off', '-count=1', '-run', 'TestVerifReplay', '.'], cwd=d, env=env, timeout=900)
     os.remove(tf)
     return _judge(body, rc, out)
 
@@ -690,8 +691,8 @@ def native_module(check, mod):
     return nat
 
 
-def scratch_ctx(info, native_templates=()):
-    return {'replay': 'scratch_pkg', 'pkgdir': info['dir'], 'pkgname': info['name'],
+def scratch_ctx(info, native_templates=(), race=False):
+    return {'race': race, 'replay': 'scratch_pkg', 'pkgdir': info['dir'], 'pkgname': info['name'],
             'native_files': [os.path.join(HARNESS, t) for t in native_templates], 'program': info.get('canon')}
 
 
@@ -707,13 +708,13 @@ def setup_programs(check, programs, templates, determinism=False):
     return mod, infos
 
 
-def run_program_jobs(check, mod, infos, jobs, record=0, native_templates=(), **kw):
+def run_program_jobs(check, mod, infos, jobs, record=0, native_templates=(), race=False, **kw):
     """Engine run over generated packages; attaches the per-package replay context."""
     pk = sorted({j['pkg'] for j in jobs})
     first = len(check.jobs)
     out = check.engine(mod, pk, {}, jobs, record=record, **kw)
     for (j, jr, ctx) in check.jobs[first:]:
-        ctx.update(scratch_ctx(infos[j['pkg'].split('/')[-1]], native_templates))
+        ctx.update(scratch_ctx(infos[j['pkg'].split('/')[-1]], native_templates, race))
     return out
 
 
